@@ -89,6 +89,8 @@ def C08():
 C04_CLASSES = r'^(copy|typeset|newold|bounds|weights|iter-|query-|functional|enum-cases|fixpoint|panic)'
 C05_CLASSES = r'^(count|root|equality|visible|fresh|define-|panic)'
 C07_CLASSES = r'^(resume-|until-)'
+C03_CLASSES = r'^(history-|fixpoint)'
+C06_CLASSES = r'^grow'
 
 
 def gen_native():
@@ -102,7 +104,8 @@ def gen_native():
                        'existing value or a fresh element; after every close: iterators duplicate-free and canonical, one representative per class, point queries == iterators and '
                        'invariant under equal arguments, functions single-valued, closing again changes nothing; C07: close_until with conditions "k-th evaluation" (k = 1..3) and '
                        '"iter_<rel> yields >= n tuples": the return value equals the condition in the state returned, false only in a closed state, and after every close() / close_until() == false '
-                       'the model is isomorphic (fixing the caller\'s elements) to a fresh model on which the same assertions were replayed and closed once; '
+                       'the model is isomorphic (fixing the caller\'s elements) to a fresh model on which the same assertions were replayed and closed once; C03: the same comparison against a fresh '
+                       'model that received the assertions in reverse order, each twice; C06: close()/close_until() allocate no element when the program has no non-surjective conclusion; '
                        'every sequence is distinct and non-trivial (ends in close)')
 
 
@@ -127,6 +130,31 @@ def C07():
             '"exactly the closed model that a direct close() would have produced" is decided up to renaming of derived elements: a fresh model replays the assertions (no close_until, no intermediate close), is closed once, and an isomorphism is built from the caller\'s handles by propagation through the function graphs',
             '"contains only elements, tuples and equalities of the free model" at an early return is covered only through the resumption statement (anything not in the free model survives into the final comparison)',
         ] + ['GEN-close (proof part): ' + a for a in genclose.ASSUMPTIONS],
+    }
+
+
+def C03():
+    gn = gen_native()
+    return {
+        'level': 'exploration', 'parts': [gn], 'samples': [], 'own_classes': C03_CLASSES,
+        'assumptions': [
+            'bounded: programs are the probe theories of /verif/probes; operation sequences over 3 elements per type as stated in coverage.rule; never counted as proof',
+            'the statement is decided as a postcondition of close(): after every close() the model must be isomorphic, by a map fixing the elements the caller created (new_/define_ results, matched by call), to a FRESH model on which the same assertions were replayed (a) in the same order without any intermediate close and (b) in reverse order with every insert_/equate_ made twice, and closed once; plus: closing a closed model changes nothing',
+            'isomorphism is built by propagation from the caller\'s elements through the function graphs; every class must be reached (free model), every relation must correspond',
+            'the reference is the implementation itself on a canonical history (not an independent chase); a defect that affects every history alike is invisible here (C01/C02 are not claimed)',
+        ],
+    }
+
+
+def C06():
+    gn = gen_native()
+    return {
+        'level': 'exploration', 'parts': [gn], 'samples': [], 'own_classes': C06_CLASSES,
+        'assumptions': [
+            'bounded: programs are the probe theories without non-surjective conclusions (p1, p2, p3, p4, p6; detected from the flat-rule comments of the emitted module); operation sequences over 3 elements per type; never counted as proof',
+            'decided: close()/close_until() allocate no element ids (hence the number of classes cannot grow); termination is only observed -- every explored run returned (a diverging run would make the check time out = UNDECIDED, never an alarm)',
+            'the compile-time surjectivity check (eqlog.eql rules evaluated by generated code) is not covered',
+        ],
     }
 
 
@@ -199,7 +227,7 @@ def C18():
     }
 
 
-PROPERTIES = {'C04': C04, 'C05': C05, 'C07': C07, 'C14': C14, 'C08': C08, 'C16': C16, 'C18': C18, 'C11': C11}
+PROPERTIES = {'C03': C03, 'C04': C04, 'C05': C05, 'C06': C06, 'C07': C07, 'C14': C14, 'C08': C08, 'C16': C16, 'C18': C18, 'C11': C11}
 
 NATIVES = {'uf_0': lambda: uf_native(0), 'uf_1': lambda: uf_native(1), 'rt_wb': lambda: rt_native('wb'), 'rt_pt': lambda: rt_native('pt'), 'rt_ts': lambda: rt_native('ts'), 'sn': sn_native, 'sd': sd_native, 'gen': gen_native}
 
